@@ -95,7 +95,7 @@ def run(prop, tier, replay=None):
             v["id"] = i + 1
             v["seed"] = s
         states, trans = res.distinct, res.generated
-        log(f"GEN Generate: {len(vectors)} (output shape, exit code, format, escaper, path) cases with <= {k} lines over 22 line classes, {res.wall:.0f}s")
+        log(f"GEN Generate: {len(vectors)} (output shape, exit code, format, escaper, path) cases with <= {k} lines over 24 line classes, {res.wall:.0f}s")
     vpath, rpath = os.path.join(work, "vectors.ndjson"), os.path.join(work, "records.ndjson")
     write_ndjson(vpath, vectors)
     harness(["gen-replay", "--vectors", vpath, "--records", rpath, "--seed", s])
